@@ -379,6 +379,7 @@ type enrSpec struct {
 	Port     int
 	RepeatOf int
 	Garbage  []byte
+	Seq      uint64 // sequence number of the record (two records of one key are the same node: the second is a repeat whatever its number)
 }
 
 type c11Ask struct {
@@ -396,7 +397,11 @@ func genC11Ask(t *rapid.T) c11Ask {
 			KeyIdx:   100 + rapid.IntRange(0, 60).Draw(t, "key"),
 			Port:     rapid.SampledFrom([]int{1025, 1026, 9000, 30303, 65535}).Draw(t, "port"),
 			RepeatOf: rapid.IntRange(0, 13).Draw(t, "rep"),
-			Garbage:  rapid.SliceOfN(rapid.Byte(), 0, 12).Draw(t, "garbage")}
+			Garbage:  rapid.SliceOfN(rapid.Byte(), 0, 12).Draw(t, "garbage"),
+			Seq:      rapid.SampledFrom([]uint64{1, 1, 1, 2, 5, 1 << 40}).Draw(t, "seq")}
+		if i > 0 && rapid.IntRange(0, 5).Draw(t, "sameKey") == 0 {
+			es[i].KeyIdx = es[rapid.IntRange(0, i-1).Draw(t, "sameAs")].KeyIdx // the same node again, as another record
+		}
 		if es[i].Kind == "lowport" {
 			es[i].Port = rapid.SampledFrom([]int{1, 80, 1023, 1024}).Draw(t, "lport")
 		}
@@ -424,7 +429,11 @@ func buildEnr(s enrSpec, built [][]byte) []byte {
 		}
 		return built[s.RepeatOf%len(built)]
 	}
-	o := gen.NodeOpts{KeyIdx: s.KeyIdx, Seq: 1, IP: ipFor(s.Kind), UDP: s.Port}
+	seq := s.Seq
+	if seq == 0 {
+		seq = 1
+	}
+	o := gen.NodeOpts{KeyIdx: s.KeyIdx, Seq: seq, IP: ipFor(s.Kind), UDP: s.Port}
 	switch s.Kind {
 	case "noport":
 		o.UDP = 0
@@ -441,6 +450,8 @@ func buildEnr(s enrSpec, built [][]byte) []byte {
 }
 
 // referenceFilter restates the acceptance rule of the property.
+var repeatsSeen int // acceptable records dropped only because their node was already taken (per process, read by the case)
+
 func referenceFilter(sender *enode.Node, raws [][]byte, distances []uint, filter bool) []enode.ID {
 	var out []enode.ID
 	seen := map[enode.ID]bool{}
@@ -472,6 +483,7 @@ func referenceFilter(sender *enode.Node, raws [][]byte, distances []uint, filter
 			}
 		}
 		if seen[n.ID()] {
+			repeatsSeen++
 			continue
 		}
 		seen[n.ID()] = true
@@ -501,7 +513,11 @@ func runC11Ask(p c11Ask, c *stats.Case) error {
 		}
 	}
 	got := local.VerifFilterNodes(sender, raws, arg)
+	r0 := repeatsSeen
 	want := referenceFilter(sender, raws, ds, filter)
+	if repeatsSeen > r0 {
+		c.NT("acceptable-record-dropped-as-repeat")
+	}
 	if len(got) != len(want) {
 		return fmt.Errorf("asker used %d records, the rule admits %d (sender %s, %d records, distances %v, filter %v)", len(got), len(want), p.SenderIP, len(raws), p.Distances, filter)
 	}
